@@ -36,11 +36,11 @@ func init() {
 }
 
 type c05state struct {
-	buf     bytes.Buffer
-	e       *Encoder
-	d       *Decoder
-	got     []HeaderField
-	written []HeaderField
+	buf                                   bytes.Buffer
+	e                                     *Encoder
+	d                                     *Decoder
+	got                                   []HeaderField
+	written                               []HeaderField
 	sawNameIdx, sawNewName, sawStaticName bool
 }
 
